@@ -160,6 +160,21 @@ def gen(seed, tier, index):
             new = g.new_obj()
             g.emit({"f": "C_CopyObject", "s": ss[0].ref, "o": o.ref, "tmpl": [A_bytes(K.CKA_LABEL, objs.label(new)), A_bool(K.CKA_TOKEN, r.random() < 0.6), A_bool(K.CKA_PRIVATE, True)], "out": new, "probe": "copy_priv"})
             g.info[new] = g.info[o.ref]
+            if r.random() < 0.6:
+                # use the retained handle of the now private copy right away from a session that is no user session: as the OTHER key of
+                # CKM_CONCATENATE_BASE_AND_KEY (the one entry point that takes an object handle inside the mechanism parameter), and for reading
+                sref = ss[0].ref; tkm = g.w.toks[o.tok]
+                g.emit({"f": "C_Logout", "s": sref})
+                so_ok = not any(not z.rw for z in g.w.sessions_on(1, o.tok))
+                if r.random() < 0.7: g.emit({"f": "C_Login", "s": sref, "user": K.CKU_SO, "pin": tkm.so_pin.hex()}, ok=so_ok)
+                d = g.new_obj()
+                t = [A_ulong(K.CKA_CLASS, K.CKO_SECRET_KEY), A_ulong(K.CKA_KEY_TYPE, K.CKK_GENERIC_SECRET), A_bool(K.CKA_TOKEN, False), A_bool(K.CKA_PRIVATE, False),
+                     A_bytes(K.CKA_LABEL, objs.label(d)), A_bool(K.CKA_SENSITIVE, False), A_bool(K.CKA_EXTRACTABLE, True)]
+                g.emit({"f": "C_DeriveKey", "s": sref, "mech": mechs.concat_key(new), "base": o.ref, "tmpl": t, "out": d, "probe": "derive_second", "second": new}, ok=False)
+                g.info[d] = {"kind": "generic", "secret": {}}
+                g.emit({"f": "C_GetAttributeValue", "s": sref, "o": new, "want": [[K.CKA_LABEL, 64]], "probe": "getattr"}, ok=False)
+                if g.P(1).login.get(o.tok) == "S": g.emit({"f": "C_Logout", "s": sref})
+                g.emit({"f": "C_Login", "s": sref, "user": K.CKU_USER, "pin": tkm.user_pin.hex()})
     n = r.choice([10, 16, 24, 40]) if tier == "quick" else r.choice([20, 40, 80])
     for _ in range(n):
         g.step(W)
